@@ -2238,6 +2238,8 @@ class ResetIndex(Elemwise):
                 # replace the projection of the former index with the actual index
                 subs = Projection(self, name)
                 predicate = parent.predicate.substitute(subs, Index(self.frame))
+                # the other terms of the predicate read columns of the frame
+                predicate = predicate.substitute(self, self.frame)
             elif self.frame.ndim == 1 and not self.operand("drop"):
                 name = self.frame._meta.name
                 # Avoid Projection since we are already a Series
